@@ -167,9 +167,7 @@ def run(ctx):
                     ctx.ob("C11.response-layout", ok, "4.1 response: user name read at offset %r (need 32)" % off, fn=ch.path, construct="user41", where=ch.where(p.blocks[-1]),
                            sample={"rule": "response-layout", "layout": "4.1", "user_offset": repr(off)})
                     # NUL-terminated: the value part of take_until(b"\0")
-                    tu = T.find(uslice, lambda x: T.is_call(x, r"take_until::\{closure#0\}$"))
-                    st = cursor.nom_step(tu) if tu is not None else None
-                    ctx.ob("C11.response-layout", st is not None and st[3] == b"\0", "4.1 response: user name is not delimited by NUL", fn=ch.path, construct="user41-nul", nontrivial=False)
+                    ctx.ob("C11.response-layout", cursor.delimited_by(uslice) == b"\0", "4.1 response: user name is not delimited by NUL", fn=ch.path, construct="user41-nul", nontrivial=False)
                 if uslice == "none":
                     # allowed only for the pre-TLS SSLRequest: !after_tls && caps.contains(CLIENT_SSL)
                     conds = {}
